@@ -153,14 +153,16 @@ def gen_case(seed):
         # in the application space; plus a few other frames a peer may send at any time
         delay = sc["fates"].get("delay", 0.02)
         acks = ["0203000003", "023f000000", "020a0001020103", "02ff7fffffffffffffff000000"[:10] + "0000"]
+        # ACK frames with ECN counts (type 0x03): for a packet number that was certainly sent, with small and 8-byte counts
+        ecn = ["0300000000" + "010000", "0300000000" + "40c8" + "05" + "c000000000001234", "0301000001" + "000000"]
         for k in ("retry", "frontend_vn"):
             sc["opts"].pop(k, None)
         if r2.random() < 0.7:
             sc["script"].append({"t": round(delay * r2.choice([1.2, 1.5, 1.9]), 5), "side": "client", "op": "forge", "ptype": "initial",
-                                 "frames_hex": r2.choice(acks[:3]), "pad_to": 1200, "early": True})
+                                 "frames_hex": r2.choice(acks[:3] + ecn[:2]), "pad_to": 1200, "early": True})
         for i in range(r2.choice([1, 2, 4])):
             op = {"t": round(0.3 + r2.random() * 2.0, 4), "side": r2.choice(["client", "server"]), "op": "forge", "ptype": "1rtt",
-                  "frames_hex": r2.choice(acks[:3] + ["01", "1a0102030405060708", "1800"])}
+                  "frames_hex": r2.choice(acks[:3] + ecn + ["01", "1a0102030405060708", "1800"])}
             if r2.random() < 0.3:
                 op["first_or"] = r2.choice([0x08, 0x10, 0x18])  # reserved header bits set: a received packet like any other, then a close
                 op["frames_hex"] = "01"
